@@ -74,6 +74,21 @@ def gen_history(rng, tier, collide_use=False):
                     tw.twin_diffs.append({'op': len(tw.ops) - 1, 'kind': 'get', 'index': i,
                                           'what': 'content differs from last stored: ' + d, 'class': 'content'})
             continue
+        if not foreign and not tw.on.block_cache and rng.random() < (0.2 if not kinds else 0.08):
+            # (only while nothing is cached: the model replays this call as a load of the new tables, which starts with an
+            # empty cache, whereas the call itself leaves the cache alone)
+            # the caller pins the numeric id of an extension kind (non-default numbering: ids are not 1..n afterwards);
+            # kinds stored later must get ids that are still free
+            name = rng.choice(['TRIGGERS', 'LABELSET', 'LABELINC'])
+            num = rng.choice([2, 3, 5, 7])
+            res = tw._both(lambda s_: s_.set_extension_string_ID(name, num))
+            kinds.append('pinext' if res[0][0] == 'ok' else 'pinext:raised')
+            if res[0][0] == 'ok' and res[1][0] == 'ok':
+                tw._record('pinext', 'load ' + sm.core_tokens(tw.on), res)
+            elif res[0][0] != res[1][0]:
+                tw.twin_diffs.append({'op': len(tw.ops) - 1, 'kind': 'pinext', 'index': 0,
+                                      'what': 'outcome differs between cache settings', 'class': 'content'})
+            continue
         if not foreign and rng.random() < 0.03:
             # both twins read a file written by ANOTHER sequence on the same rasters (labels, triggers, gradients);
             # the history then continues on the loaded object
@@ -216,6 +231,13 @@ def read_foreign(rng, tw):
 def read_other(rng, tw, pool):
     import pypulseq as pp
     fs = pp.Sequence(tw.on.system)
+    if rng.random() < 0.4:
+        # the writer numbered its extension kinds itself: the file declares e.g. only `extension LABELINC 2`
+        for name in rng.sample(['TRIGGERS', 'LABELSET', 'LABELINC'], rng.choice([1, 2])):
+            try:
+                fs.set_extension_string_ID(name, rng.choice([2, 3, 5]))
+            except ValueError:
+                pass
     stored = {}
     for k in range(rng.randint(1, 4)):
         evs = H.gen_block(rng, pool, [0.0, 0.0, 0.0], mostly_valid=True)
